@@ -638,11 +638,11 @@ fn cmd_check(prop_s: &str, tier: &str) -> i32 {
     let wall = t0.elapsed().as_secs_f64();
     let (rule, explain) = match prop {
         Prop::C11 => (
-            "A case is one simulated run: a generated project (1-40 files from a collision-prone universe) executed 5-9 times with different insertion orders, hash-key policies/keys (seam H1), caller threads and repetition counts, plus one verbatim twin. Distinct = distinct scenario digest. Non-trivial = the project contains an order-sensitive constellation (a file with >= 2 distinct imports/forward declarations, an ambiguous simple name, a forward declaration clashing with >= 2 imports, >= 2 files with one key, or >= 2 diagnostics on one line) AND at least two executions differ in hash keys or insertion order.",
+            "A case is one simulated run: a generated project (1-40 files, thorough up to 90, from a collision-prone universe with look-alike keys) executed 5-9 times with different insertion orders, hash-key policies/keys (seam H1), caller threads and repetition counts, plus one verbatim twin. Distinct = distinct scenario digest. Non-trivial = the project contains an order-sensitive constellation (a file with >= 2 distinct imports/forward declarations, an ambiguous simple name, a forward declaration clashing with >= 2 imports, >= 2 files with one key, or >= 2 diagnostics on one line) AND at least two executions differ in hash keys or insertion order.",
             "oracle: every observation equals the canonical execution's (library ==); diagnostics ascending by (line, column) in every result; verbatim twin equal",
         ),
         Prop::C12 => (
-            "A case is one simulated run: a history of 3-40 API calls (add/replace, remove live/absent, validate x r, disk write, add_file with a fault plan) on one long-lived Parser<PathBuf>, issued by 1-4 caller threads under one hash-key policy; after every step (or only at validate steps) the parser is compared with a fresh parser built from the reference model. Distinct = distinct scenario digest. Non-trivial = the history contains a replace, a remove, or a failed load that is followed by an observation, with >= 2 files live at some point.",
+            "A case is one simulated run: a history of 3-41 (thorough: up to 91) API calls (add/replace/re-add/revert, remove live/absent, validate x r, caller warm-up, disk write, add_file with a fault plan) on one long-lived Parser<PathBuf>, issued by 1-4 caller threads under one hash-key policy; after every step (or only at validate steps) the parser is compared with a fresh parser built from the reference model. Distinct = distinct scenario digest. Non-trivial = the history contains a replace, a remove, or a failed load that is followed by an observation, with >= 2 files live at some point.",
             "oracle clauses: add_file result vs. what the disk delivered; key set and id tags; equality with a fresh parser (4 fresh parsers must be unanimous); attribution by serial; idempotence; no panic that a fresh parser does not share",
         ),
         Prop::C13 => (
@@ -715,7 +715,7 @@ fn cmd_check(prop_s: &str, tier: &str) -> i32 {
             scenario::jstr_arr(&[
                 "seeded sampling, not enumeration: a clean batch is evidence, not proof",
                 "substituting the hash function (SipHash-1-3 -> keyed mixer) does not hide an effect only SipHash would show",
-                "texts are ASCII (plus one trailing non-ASCII comment in disk contents); <= 40 files, <= 41 steps per run",
+                "texts are mostly ASCII; non-ASCII only in banner comments, string constants and trailing comments (where the known C01 doc-comment panic cannot be hit); quick: <= 40 files, <= 41 steps per run; thorough: <= 90 files, <= 91 steps",
                 "the harness's reference model (BTreeMap id -> text), canonical printer and disk are trusted; rustc/std are trusted",
             ]),
         )
